@@ -18,6 +18,7 @@ import Proofs.GoTieKeygenMain
 import Proofs.GoTieKeygenModel
 import Proofs.GoTieCliModel
 import Proofs.GoTieCliSegments
+import Proofs.GoTieCliMain
 namespace AgeModel
 namespace Tie.C15
 open Extracted
@@ -234,6 +235,47 @@ theorem cli_encrypt_refines {ρ : Type} (eW : Go.Err) (dest : Cli.Dest) (s1 s2 s
     | .ok p' => GoTie.ResObsEq (Cli.execute dest (.enc ct) w) (p'.finish dest)
     | .error _ => (Cli.execute dest (.enc ct) w).exit = 1 :=
   GoTie.cli_encrypt_refines eW dest s1 s2 s3 s4 recs inp armor w
+
+/-! ### `main` of cmd/age, from the flag-conflict switch to its end
+
+Translated on every run (flag parsing, `-version` and the "too many arguments" hints are outside the
+fragment; the three `defer`s inside branches run at the end exactly when their branch was taken). It
+IS the model's `Cli.flagCheck` / `Cli.prepare` where it matters for this property: -/
+
+/-- every flag conflict the model names ends the process at its site — whatever the environment does, i.e. before anything
+    is looked at, opened or started -/
+theorem main_flagCheck {ζ τ : Type} (E : GoTie.MainEnv ζ τ) (a : Cli.Args) (err : Cli.ErrClass) (h : Cli.flagCheck a = some err) (t0 : τ) :
+    E.run a.output a.decrypt a.encrypt a.passphrase a.armor a.recipients a.recipientsFiles (a.identities.map GoTie.main_toFlag) t0 =
+      .error (.panic (1000 + GoTie.main_flagSite err)) :=
+  GoTie.main_flagCheck E a err h t0
+
+/-- an output whose absolute path is that of an `-i` file, an `-R` file or the input is refused (site 12) BEFORE the output is
+    opened: the `newLazyOpener` handed in here faults when called, and is not reached -/
+theorem main_sameFile {ζ τ : Type} (E : GoTie.MainEnv ζ τ) (ap : Bytes → Bytes) (a : Cli.Args) (hfc : Cli.flagCheck a = none)
+    (inputName : Bytes) (hArg : ∀ t, E.Arg 0 t = .ok (inputName, t))
+    (hOpen : ∀ n t, ∃ f t', E.Open n t = .ok (f, none, t'))
+    (hSet : ∀ b t, ∃ t', E.SetStdin b t = .ok t') (hFd : ∀ z t, ∃ n t', E.Fd z t = .ok (n, t'))
+    (hIsT : ∀ n t, ∃ t', E.IsT n t = .ok (false, t'))
+    (hAP : E.AP = GoTie.main_pureAP ap) (hNL : E.NL = fun _ _ => .error (.panic 77))
+    (hout : a.output ≠ [] ∧ a.output ≠ [45])
+    (hin : ap a.output ∈ GoTie.main_inUse ap a.identities a.recipientsFiles inputName) (t0 : τ) :
+    E.run a.output a.decrypt a.encrypt a.passphrase a.armor a.recipients a.recipientsFiles (a.identities.map GoTie.main_toFlag) t0 =
+      .error (.panic 1012) :=
+  GoTie.main_sameFile E ap a hfc inputName hArg hOpen hSet hFd hIsT hAP hNL hout hin t0
+
+/-- `-o FILE` not in use: the output handed to the mode function IS the lazy opener for that name, exactly one mode function
+    is called — the one the model's dispatch names —, and `main` returns only if the opener's `Close` reports success -/
+theorem main_dispatch_file {ζ τ : Type} (E : GoTie.MainEnv ζ τ) (ap : Bytes → Bytes) (a : Cli.Args) (hfc : Cli.flagCheck a = none)
+    (hArg : ∀ t, E.Arg 0 t = .ok ([], t)) (hSet : ∀ b t, E.SetStdin b t = .ok t) (hFd : ∀ z t, E.Fd z t = .ok (0, t))
+    (hIsT : ∀ n t, E.IsT n t = .ok (false, t)) (hAP : E.AP = GoTie.main_pureAP ap)
+    (hout : a.output ≠ [] ∧ a.output ≠ [45])
+    (hnot : ap a.output ∉ GoTie.main_inUse ap a.identities a.recipientsFiles []) (t0 : τ) :
+    E.run a.output a.decrypt a.encrypt a.passphrase a.armor a.recipients a.recipientsFiles (a.identities.map GoTie.main_toFlag) t0 =
+      (do let o ← E.NL a.output t0
+          let t2 ← E.mode a E.stdin o.1 o.2
+          let c ← E.WCl o.1 t2
+          if (c.1 != none) = true then .error (.panic 1014) else pure c.2) :=
+  GoTie.main_dispatch_file E ap a hfc hArg hSet hFd hIsT hAP hout hnot t0
 
 end Tie.C15
 end AgeModel
